@@ -4,6 +4,7 @@ cd "$(dirname "$0")" || exit 2
 tier="${1:-quick}"; prop="${2:?property id}"
 export VERIF_TIER="$tier"
 export PYTHONHASHSEED=0 PYTHONDONTWRITEBYTECODE=1 AW_CORE_VERIF=1
-export PYTHONPATH="/repo:$(pwd)"
+export VERIF_REPO="${VERIF_REPO:-/repo}"
+export PYTHONPATH="$VERIF_REPO:$(pwd)"
 mod="harness.$(echo "$prop" | tr 'A-Z' 'a-z')"
 exec /venv/bin/python -m "$mod" "$tier"
